@@ -54,7 +54,7 @@ DOCS = [
 ]
 EXPORTS = ("write_rtf", "write_docx", "write_html", "write_pdf")
 FMT = {"write_docx": "docx", "write_html": "html", "write_pdf": "pdf"}
-STUBS = ("ok", "raise_before", "write_then_raise", "returns_list", "returns_none", "returns_str", "missing_path", "html_with_files",
+STUBS = ("ok", "raise_before", "write_then_raise", "returns_list", "returns_none", "returns_str", "missing_path", "html_with_files", "files_but_no_page",
          # the library's own LibreOfficeConverter driven by a fake soffice executable (covers convert.py):
          "real_ok", "real_exit3", "real_silent", "real_html_files", "real_write_then_exit3", "real_empty", "ok_empty")
 REAL_PAYLOAD = b"CONVERTED-BY-FAKE-SOFFICE"
@@ -124,10 +124,10 @@ class Stub:
         if b == "ok_empty":
             out.write_bytes(b"")            # a converter that reports success with a zero-byte output
             self.written = out
-        elif b != "missing_path":
+        elif b not in ("missing_path", "files_but_no_page"):
             out.write_bytes(PAYLOAD + format.encode())
             self.written = out
-        if b == "html_with_files":
+        if b in ("html_with_files", "files_but_no_page"):
             fd = out.with_name(out.name + "_files")
             fd.mkdir()
             (fd / "img0.png").write_bytes(b"IMG0")
